@@ -144,6 +144,17 @@ func runProperty(id, tier string, timeout int, overlay map[string][]byte, only s
 			return nil, fmt.Errorf("contracts: %v", err)
 		}
 		run.files = append(run.files, e.db.Files...)
+		for _, dc := range e.db.Distinct {
+			serves := false
+			for _, p := range dc.Props {
+				if p == id {
+					serves = true
+				}
+			}
+			if serves && only == "" {
+				run.results = append(run.results, e.checkDistinct(dc))
+			}
+		}
 		for _, rc := range e.db.RecvOnly {
 			serves := false
 			for _, p := range rc.Props {
@@ -597,6 +608,41 @@ func (e *Engine) checkRecvOnly(rc *RecvOnlyCheck) *FuncResult {
 		sort.Strings(bad)
 		msg := "receives from " + rc.Chan + " outside " + strings.Join(rc.Funcs, ", ") + ": " + strings.Join(bad, "; ")
 		o.Res = &SolveResult{Status: "sat", Backend: "go/ssa scan", Output: msg}
+		o.Query = "; " + msg
+	}
+	return res
+}
+
+// checkDistinct: pairwise distinct constant values (ground obligation decided by go/constant).
+func (e *Engine) checkDistinct(dc *DistinctCheck) *FuncResult {
+	key := dc.Pkg + "." + strings.Join(dc.Names, ",") + "$distinct"
+	res := &FuncResult{Key: key, Unmodelled: map[string]int{}, Assumed: map[string]int{}, Notes: map[string]int{}, Inlined: map[string]int{}}
+	o := &Obligation{Func: key, Name: "ground[pairwise distinct]", Kind: "ground", Label: "distinct", Where: dc.Where, Goal: tTrue}
+	res.Obls = []*Obligation{o}
+	msg := ""
+	p := e.allPkgs[dc.Pkg]
+	seen := map[string]string{}
+	if p == nil || p.Types == nil {
+		msg = "package not loaded"
+	} else {
+		for _, n := range dc.Names {
+			obj, ok := p.Types.Scope().Lookup(n).(*types.Const)
+			if !ok {
+				msg = "constant " + n + " not found"
+				break
+			}
+			v := obj.Val().ExactString()
+			if other, dup := seen[v]; dup {
+				msg = fmt.Sprintf("constants %s and %s have the same value %s", other, n, v)
+				break
+			}
+			seen[v] = n
+		}
+	}
+	if msg == "" {
+		o.Res = &SolveResult{Status: "unsat", Backend: "go/constant"}
+	} else {
+		o.Res = &SolveResult{Status: "sat", Backend: "go/constant", Output: msg}
 		o.Query = "; " + msg
 	}
 	return res
